@@ -389,9 +389,17 @@ pub fn run_c12(out: &mut Out, rng: &mut Rng, thorough: bool, only: Option<&str>,
             }
         }
     }
-    // unbounded repetition of a transient answer: 70 000 interruptions in a row (start, middle), and
-    // 66 000 deliveries of 1 - 3 bytes each preceded by an interruption (each logged as one event)
     if with_interrupts {
+        run_many(out, rng, thorough, only);
+    }
+    files(out, rng, thorough, only);
+}
+
+/// Unbounded repetition: 70 000 interruptions in a row (start, middle), 66 000 deliveries of 1 - 3 bytes
+/// each preceded by an interruption, and more than 2^20 short deliveries (each run logged as ONE event).
+/// The stream's hash - length code included - is that of all bytes delivered, however many reads it took.
+pub fn run_many(out: &mut Out, rng: &mut Rng, thorough: bool, only: Option<&str>) {
+    {
         for v in VARIANTS.iter() {
             if only.map_or(false, |o| o != v.name()) || v.ck_len() != 1 {
                 continue;
@@ -406,7 +414,6 @@ pub fn run_c12(out: &mut Out, rng: &mut Rng, thorough: bool, only: Option<&str>,
             run_stream(out, *v, Content::Periodic(pat, many * n + 64), vec![Step::Deliver(64), Step::DeliverRun(many, n), Step::Eof], false);
         }
     }
-    files(out, rng, thorough, only);
 }
 
 fn files(out: &mut Out, rng: &mut Rng, thorough: bool, only: Option<&str>) {
